@@ -69,10 +69,11 @@ def handle (toks : List String) : String :=
   | priv :: k :: nops :: rest =>
     match k.toNat?, nops.toNat? with
     | some k, some n =>
-      -- priv: bit 0 = privileged, bit 1 = seccomp(2) answers ENOSYS (an outer filter denies it / old kernel)
+      -- priv: bit 0 = privileged, bit 1 = seccomp(2) answers ENOSYS (an outer filter denies it / old kernel),
+      --       bit 2 = prctl(PR_SET_NO_NEW_PRIVS) answers EINVAL
       let pv := priv.toNat?.getD 0
       let w : World := { thr := fun _ => {}, live := List.range (k + 2), cur := 0, privileged := pv % 2 == 1,
-                         seccompAvailable := pv / 2 % 2 == 0 }
+                         seccompAvailable := pv / 2 % 2 == 0, nnpAvailable := pv / 4 % 2 == 0 }
       match ops k n rest { w := w, next := 100, out := [] } with
       | some st => " | ".intercalate st.out
       | none => "BAD-REQUEST"
